@@ -1210,7 +1210,7 @@ func sridRules(p *core.Program, r *core.Report, rule string) {
 		}
 		return ""
 	}
-	nset, nword, nread := 0, 0, 0
+	nset, nword := 0, 0
 	for _, fn := range pkgFuncs(p, "encoding/ewkb") {
 		for _, b := range fn.Blocks {
 			for _, in := range b.Instrs {
@@ -1233,75 +1233,7 @@ func sridRules(p *core.Program, r *core.Report, rule string) {
 			}
 		}
 	}
-	if rd := mustFn(p, r, rule, "encoding/ewkb", "Read"); rd != nil {
-		// the ReadUInt32 whose controlling condition is the flag test
-		var sridVals = map[ssa.Value]bool{}
-		for _, c := range eng.Calls(rd) {
-			f := c.Common().StaticCallee()
-			if f == nil || f.Name() != "ReadUInt32" {
-				continue
-			}
-			ctl := controllingIfs(c.Block())
-			isFlagRead := false
-			for _, cb := range ctl {
-				if condKind(cb) == "flag" {
-					isFlagRead = true
-				}
-			}
-			if !isFlagRead {
-				continue
-			}
-			nread++
-			why := exact(c.Block(), "flag")
-			r.Check(why == "", rule, short(rd)+"/read-word", p.Pos(c.Pos()), true, "SRID word read iff flag set", "the SRID word is not read exactly when the flag is set: "+why)
-			if cv, ok := c.(ssa.Value); ok {
-				for _, ref := range *cv.Referrers() {
-					if ex, ok := ref.(*ssa.Extract); ok && ex.Index == 0 {
-						sridVals[ex] = true
-					}
-				}
-			}
-		}
-		if nread == 0 {
-			r.Bad(rule, short(rd)+"/read-word", p.Pos(rd.Pos()), "no read of the SRID word under `type & ewkbSRID != 0` was found")
-		}
-		// phi closure
-		for changed := true; changed; {
-			changed = false
-			for _, b := range rd.Blocks {
-				for _, in := range b.Instrs {
-					switch x := in.(type) {
-					case *ssa.Phi:
-						for _, e := range x.Edges {
-							if sridVals[e] && !sridVals[x] {
-								sridVals[x], changed = true, true
-							}
-						}
-					case *ssa.Convert:
-						if sridVals[x.X] && !sridVals[x] {
-							sridVals[x], changed = true, true
-						}
-					}
-				}
-			}
-		}
-		for _, c := range eng.Calls(rd) {
-			f := c.Common().StaticCallee()
-			if f == nil || !strings.HasPrefix(f.Name(), "New") || core.FnPkgPath(f) != core.ModPath {
-				continue
-			}
-			cv, _ := c.(ssa.Value)
-			ok := false
-			for _, ref := range *cv.Referrers() {
-				if sc, isC := ref.(*ssa.Call); isC {
-					if g := sc.Call.StaticCallee(); g != nil && g.Name() == "SetSRID" && len(sc.Call.Args) == 2 && sc.Call.Args[0] == cv && sridVals[sc.Call.Args[1]] {
-						ok = true
-					}
-				}
-			}
-			r.Check(ok, rule, fmt.Sprintf("%s/%s#%d", short(rd), f.Name(), ordinalOf(rd, c)), p.Pos(c.Pos()), true, "constructed geometry receives SetSRID(int(srid))", "the geometry built here is not given the decoded SRID: it decodes with SRID 0")
-		}
-	}
+	sridReaderEval(p, r, rule)
 	if nset == 0 || nword == 0 {
 		r.Bad(rule, "encoding/ewkb.Write/srid", "", fmt.Sprintf("writer sites not found: flag-set=%d word-write=%d", nset, nword))
 	}
@@ -1811,4 +1743,88 @@ func runePredicate(fn *ssa.Function, sample string) (map[rune]bool, bool) {
 		out[ch] = b
 	}
 	return out, okAll
+}
+
+// sridReaderEval (C03/C04): ewkb.Read evaluated with the type word bound to each geometry type with and without the
+// SRID flag. The word decoded right after the type word is a symbol; it must be read exactly when the flag is set,
+// and every SetSRID that is reached must be handed that word (flag set) or the constant 0 (flag clear) - for the
+// geometry the reader builds itself; members are decoded by recursive Read calls and carry their own words.
+func sridReaderEval(p *core.Program, r *core.Report, rule string) {
+	rd := mustFn(p, r, rule, "encoding/ewkb", "Read")
+	if rd == nil {
+		return
+	}
+	isRead32 := func(c *ssa.Call) bool {
+		f := c.Call.StaticCallee()
+		return f != nil && f.Name() == "ReadUInt32" && core.FnPkgPath(f) == mod+"/encoding/wkbcommon"
+	}
+	first := eng.FirstCall(rd, isRead32, 0)
+	if first == nil {
+		r.Lost(rule, short(rd)+"/type-word", "Read no longer decodes a 32-bit type word")
+		return
+	}
+	// the word after the type word in dominator preorder
+	second := eng.FirstCall(rd, func(c *ssa.Call) bool { return isRead32(c) && c != first }, 0)
+	if second == nil {
+		r.Bad(rule, short(rd)+"/read-word", p.Pos(rd.Pos()), "no read of the SRID word was found")
+		return
+	}
+	for _, tn := range wkbTypeNames {
+		code := specTypeCode["*geom."+tn]
+		for _, flag := range []bool{true, false} {
+			word := code
+			if flag {
+				word |= specEWKBSRIDFlag
+			}
+			readSRID := false
+			ev := &eng.ConstEval{Inline: pureTableHelper}
+			ev.Override = func(fn *ssa.Function, v ssa.Value, args []eng.CVal) (eng.CVal, bool) {
+				if g, ok := eng.GlobalInit(v); ok {
+					return g, true
+				}
+				if v == ssa.Value(first) {
+					return eng.TupleV(eng.IntV(word), eng.NilV()), true
+				}
+				if v == ssa.Value(second) {
+					readSRID = true
+					return eng.TupleV(eng.SymV("srid"), eng.NilV()), true
+				}
+				if c, ok := v.(*ssa.Call); ok && isRead32(c) {
+					return eng.TupleV(eng.Top, eng.NilV()), true
+				}
+				return eng.CVal{}, false
+			}
+			top := ev.RunStable(rd, nil)
+			var sets []eng.CVal
+			eng.WalkReached(top, func(act *eng.CEResult, in ssa.Instruction) {
+				c, ok := in.(*ssa.Call)
+				if !ok {
+					return
+				}
+				if o := eng.CalleeObj(c); o != nil && o.Name() == "SetSRID" && len(c.Call.Args) >= 1 {
+					sets = append(sets, act.Of(c.Call.Args[len(c.Call.Args)-1]))
+				}
+			})
+			key := fmt.Sprintf("%s/%s/srid-flag=%v", short(rd), tn, flag)
+			bad := ""
+			switch {
+			case flag && !readSRID:
+				bad = "the SRID flag is set but the SRID word is not read: every later word is decoded from the wrong offset"
+			case !flag && readSRID:
+				bad = "the SRID word is read although the flag is clear"
+			case len(sets) == 0:
+				bad = "the geometry built for this type word is not given an SRID at all"
+			}
+			for _, sv := range sets {
+				if flag {
+					if sv.K != eng.CSym || sv.S != "srid" {
+						bad = "SetSRID is handed " + sv.String() + " instead of the decoded SRID word: the geometry decodes with the wrong SRID"
+					}
+				} else if k, ok := sv.Int(); !ok || k != 0 {
+					bad = "without the SRID flag SetSRID is handed " + sv.String() + " instead of 0"
+				}
+			}
+			r.Check(bad == "", rule, key, p.Pos(rd.Pos()), true, fmt.Sprintf("%d SetSRID call(s), word read: %v", len(sets), readSRID), bad)
+		}
+	}
 }
